@@ -11,6 +11,7 @@ import (
 	"github.com/yuin/goldmark/ast"
 	"github.com/yuin/goldmark/parser"
 	"github.com/yuin/goldmark/renderer"
+	"github.com/yuin/goldmark/renderer/html"
 	"github.com/yuin/goldmark/text"
 	"github.com/yuin/goldmark/util"
 
@@ -174,11 +175,17 @@ type c20Cfg struct {
 	Group string    `json:"group"`
 	Comps []c20Comp `json:"registered_in_this_order"`
 	Doc   string    `json:"document"`
-	_     struct{}
+	// Replace: "first" / "last" = goldmark.WithParser(a parser built from the defaults) and goldmark.WithRenderer(a renderer
+	// built from the default node renderer) are given before / behind the other options of goldmark.New
+	Replace string `json:"replace_parser_and_renderer,omitempty"`
+	_       struct{}
 }
 
 func (c c20Cfg) describe() []string {
 	out := []string{"group " + c.Group + ", document " + core.Q([]byte(c.Doc))}
+	if c.Replace != "" {
+		out = append(out, "goldmark.WithParser(parser.NewParser(defaults...)) and goldmark.WithRenderer(renderer.NewRenderer(default html renderer)) given "+c.Replace+" among the options of goldmark.New")
+	}
 	for _, k := range c.Comps {
 		out = append(out, fmt.Sprintf("register %s priority=%d script=%d via %s", k.Name, k.Prio, k.Script, k.Via))
 	}
@@ -229,6 +236,17 @@ func (c c20Cfg) build(log *[]string) goldmark.Markdown {
 			opts = append(opts, goldmark.WithParserOptions(po))
 		default:
 			opts = append(opts, goldmark.WithRendererOptions(ro))
+		}
+	}
+	if c.Replace != "" {
+		rep := []goldmark.Option{
+			goldmark.WithParser(parser.NewParser(parser.WithBlockParsers(parser.DefaultBlockParsers()...), parser.WithInlineParsers(parser.DefaultInlineParsers()...), parser.WithParagraphTransformers(parser.DefaultParagraphTransformers()...))),
+			goldmark.WithRenderer(renderer.NewRenderer(renderer.WithNodeRenderers(util.Prioritized(html.NewRenderer(), 1000)))),
+		}
+		if c.Replace == "first" {
+			opts = append(rep, opts...)
+		} else {
+			opts = append(opts, rep...)
 		}
 	}
 	return goldmark.New(opts...)
@@ -627,7 +645,7 @@ func runC20(r *core.Run) {
 	}
 	for _, rn := range runs {
 		g, pool := rn.g, rn.pool
-		s := r.Sub("priority-"+g.name+rn.suffix, fmt.Sprintf("every subset of the probes %v × every injective priority assignment from %v × every registration order × channel pattern {all via WithParserOptions/WithRendererOptions, all via an Extender calling AddOptions, alternating} × every script vector × documents %q: %s", g.names, pool, g.docs, g.rule))
+		s := r.Sub("priority-"+g.name+rn.suffix, fmt.Sprintf("every subset of the probes %v × every injective priority assignment from %v × every registration order × channel pattern {all via WithParserOptions/WithRendererOptions, all via an Extender calling AddOptions (also with goldmark.WithParser / WithRenderer replacing parser and renderer as the first or the last option of goldmark.New), alternating} × every script vector × documents %q: %s", g.names, pool, g.docs, g.rule))
 		var cfgs []c20Cfg
 		c20Enum(g.name, g.names, pool, g.scriptN, g.name == "render", func(c c20Cfg) {
 			if rn.suffix == "-same-instance-twice" {
@@ -650,6 +668,19 @@ func runC20(r *core.Run) {
 					c := cfgs[i]
 					c.Doc = d
 					c20Run(s, c)
+					// probes that arrive through Extenders are registered after all options of goldmark.New have been applied:
+					// a parser / renderer replaced by WithParser / WithRenderer anywhere in the option list must still get them
+					allExt := len(c.Comps) > 0
+					for _, k := range c.Comps {
+						allExt = allExt && k.Via == "extender"
+					}
+					if allExt && rn.suffix == "" {
+						for _, rp := range []string{"first", "last"} {
+							c2 := c
+							c2.Replace = rp
+							c20Run(s, c2)
+						}
+					}
 					if rn.suffix == "" && c.Comps != nil && c.Comps[0].Via == "options" && (len(c.Comps) < 2 || c.Comps[1].Via == "options") {
 						c20Shared(s, c)
 					}
